@@ -108,7 +108,9 @@ class Check:
             rc = 1
         for b in self.broken:
             print("CHECK-BROKEN property=%s %s" % (self.pid, b))
-            rc = max(rc, 2)
+            # floors/anchors guard against a *silent* pass; when violations were found they are the verdict
+            if rc == 0:
+                rc = 2
         cov = {
             "explanation": explanation,
             "obligations": self.obligations,
